@@ -533,3 +533,30 @@ func factQueueNeverClosed() {
 	}
 	emit("/-- F3c: close() calls on the callback queue / on d.monDone in dials.go and cb_mgr.go -/\ndef callbackQueueCloses : Nat := %d\ndef monDoneCloses : Nat := %d\n\n", closes, doneCloses)
 }
+
+func init() { allFacts = append(allFacts, factUncomparableSources) }
+
+// F4u: Config lets a pointer stand in for a source whose dynamic type is not comparable BEFORE the source is stored in its
+// slot and handed to its WatchArgs (the monitor identifies slots by comparing Source values: repaired defect P20)
+func factUncomparableSources() {
+	f := parse("dials.go")
+	ok := false
+	if fd := funcDecl(f, "Config"); fd != nil {
+		ast.Inspect(fd, func(n ast.Node) bool {
+			rs, isRange := n.(*ast.RangeStmt)
+			if !isRange || src(rs.X) != "sources" || len(rs.Body.List) < 2 {
+				return true
+			}
+			first, isIf := rs.Body.List[0].(*ast.IfStmt)
+			if isIf && strings.Contains(src(first.Cond), "!st.Comparable()") && strings.Contains(src(first.Init), "reflect.TypeOf(source)") &&
+				strings.Contains(src(first.Body), "source = &uncomparable") && src(rs.Body.List[1]) == "s := source" {
+				ok = true
+			}
+			return true
+		})
+	}
+	if !ok {
+		miss("F4u", "dials.go Config: `if st := reflect.TypeOf(source); st != nil && !st.Comparable() { source = &uncomparable…{…} }` as the first statement of the loop over sources, before `s := source`")
+	}
+	emit("/-- F4u: Config replaces a source of an uncomparable type by a pointer before it is stored and watched (P20) -/\ndef uncomparableSourcesWrapped : Bool := %v\n\n", ok)
+}
